@@ -641,6 +641,18 @@ def check_lengths(run, prog):
         edge = DictV({'label': K(lab), 'node': node})
         for d in (leaf, node, edge, leaf.d['node']):
             d.keyobj = {k: K(k) for k in d.d}
+        bt = prog.func('build_tree', required=False)
+        if bt is not None:
+            # the tree in whatever form the code itself builds it (tagged dictionaries, records ...): two keys that share exactly `lab`
+            src_ = DictV()
+            for tail_bit in '01':
+                kint = int(lab + tail_bit + '1' * (19 - len(lab)), 2)
+                src_.d[kint] = K(1)
+                src_.keyobj[kint] = K(kint)
+            try:
+                edge = super(ProbeW, it).invoke(bt, [src_, K(20)], {})
+            except (RaiseEx, Fail) as e:
+                raise AnalysisError(f'write_edge probe: build_tree on a two-key map: {e}')
         b = it.construct(prog.cls('Builder'), [], {})
         S = atom('S')
         # S is large: decisions about bit_length(S) are irrelevant to the child size; fix the label kind computations by summarising detect_label_type
